@@ -153,15 +153,8 @@ func c18Check(x *vsched.Exec, r vsched.Result) []vsched.Finding {
 		return []vsched.Finding{{Sig: "INFRA:setup", What: s}}
 	}
 	w, _ := x.V["w"].(*world)
-	if r.Truncated && r.Deadlock == "" && len(r.Panics) == 0 {
-		// the horizon is an order of magnitude beyond what these scenarios need (the longest execution on the
-		// repaired tree has about 1300 scheduling points): an execution that is still running there keeps taking
-		// steps without coming to rest - threads feeding each other (or one thread feeding itself) for ever
-		tail := r.Trace
-		if len(tail) > 12 {
-			tail = tail[len(tail)-12:]
-		}
-		return []vsched.Finding{{Sig: "no-progress:still-running-at-the-horizon", What: fmt.Sprintf("the execution has not come to rest after %d scheduling points (no thread is blocked for good, but the system keeps stepping without finishing its work); last steps: %s", len(r.Points), strings.Join(tail, " | "))}}
+	if f := noProgress(r); f != nil {
+		return f
 	}
 	if w == nil || r.Deadlock != "" || len(r.Panics) > 0 {
 		return nil // deadlocks and panics are reported by the explorer itself
@@ -245,4 +238,19 @@ func c18Scenarios(tier string) []struct {
 		}
 	}
 	return out
+}
+
+// noProgress: an execution that is still running at the scheduler's horizon. The horizon (20000 scheduling points) is
+// an order of magnitude beyond what the scenarios of C15 / C17 / C18 need on the unchanged tree (the longest, a
+// true-scale C18 instance, has about 1300): an execution that has not come to rest there keeps taking steps
+// without finishing its work - threads feeding each other, or one thread feeding itself, for ever.
+func noProgress(r vsched.Result) []vsched.Finding {
+	if !r.Truncated || r.Deadlock != "" || len(r.Panics) > 0 || r.Diverged != "" {
+		return nil
+	}
+	tail := r.Trace
+	if len(tail) > 12 {
+		tail = tail[len(tail)-12:]
+	}
+	return []vsched.Finding{{Sig: "no-progress:still-running-at-the-horizon", What: fmt.Sprintf("the execution has not come to rest after %d scheduling points (no thread is blocked for good, but the system keeps stepping without finishing its work); last steps: %s", len(r.Points), strings.Join(tail, " | "))}}
 }
